@@ -14,13 +14,47 @@ CFG = dict(
         "hand-written pure models PolyVerif/Model/{Mesh,MeshOps,Primitives}.lean of modeling/mesh.go, modeling/meshops/*.go, "
         "modeling/primitives/*.go; tied to the code on every run by exact comparison of index lists (primitives) and of result "
         "shapes (operations) on generated inputs"],
-    residue=["triangulation/bowyer_watson.go, extrude/screw.go, repeat/{circle,line,curve,fibonacci}.go: no theorem; covered by the WF oracle evaluated on every "
-             "mesh these generators return",
-             "marching cubes: marchBlock_wf / march_wf are about an abstract model of the LookupOrAdd allocation and the Append fold (any emitted triangles); it is tied "
+    residue=["SETTER GUARDS: SetIndices, SetFloatNAttribute (incl. the delete-on-empty case), CopyFloatNAttribute (= SetFloatNAttribute with the source's array), "
+             "SetFloatNData and ClearAttributeData take caller-supplied data the Go code does not check. They are steps of ops_closed only under the stated guards "
+             "(setIndices_wf: every index < attribute length and count fits the topology; setAttr_wf: len(data) = common length, or no attribute yet; setAttr_delete_wf: another "
+             "array remains or no index; setData_wf: every new array has the common length and some array remains or no index; clearAttrs_wf: no index). With other data they are "
+             "caller-checked builders whose result the caller completes: outside the theorem; exercised through the oracle c02.holds.wf_raw_setter = (guard -> WF), guard-violating "
+             "calls are counted in the notes only (observed: ClearAttributeData on an indexed mesh and wrong-length SetFloatNData/CopyFloatNAttribute return non-WF meshes)",
+             "operations without a Lean model, covered ONLY by the WF oracle on every mesh they return (called on generated WF meshes of all topologies): SliceByPlaneWithAttribute / "
+             "SliceByPlaneTransformer, ColorGradingLut, VertexColorSpace, SmoothNormalsImplicitWeld (finite positions only), LaplacianSmoothAlongAxis, ScaleAttributeAlongNormal "
+             "(+Transformer), ScaleAttribute2D, NormalizeAttribute2D",
+             "generators without a theorem, WF oracle only: triangulation.BowyerWatson, triangulation.ConstrainedBowyerWatson (with constraint polygons that clip triangles and add "
+             "points), repeat/{circle,line,curve,fibonacci}.go point generators; CircleAlongSpline.Extrude is covered by extrudePolygon_wf through the polygon_idx oracle",
+             "the generator theorems are about the Lean index generators; their link to the Go constructors is the exact comparison of (vertex count, index list) on parameter sweeps: "
+             "exhaustive 0..8 (quick) / 0..24 (thorough) plus fixed and sampled NON-SQUARE parameters (rows >> columns and columns >> rows, rows = columns + 2..4) up to 512 in thorough",
+             "marching cubes: marchBlock_wf / march_wf / march_blocks_wf are about an abstract model of the LookupOrAdd allocation and the Append fold (any emitted triangles); it is tied "
              "to marching/canvas.go by reading and by the WF oracle on March output only (no structural correspondence); the additional-attribute arrays of Field.March are not modelled",
+             "SplitOnUniqueMaterials with material ranges SHORTER than the triangle list indexes past the last range (runtime index-out-of-range panic in the skip loop); the harness "
+             "recovers that panic and reports it as a rejection (go/harness/util_mesh.go, op split), the model returns none for exactly this case. Material ranges are outside WF as "
+             "the property defines it, and a panic is a reported failure, not a returned bad mesh; a fixed corpus case (c02.go corpusC02) exercises it on every run",
              "LaplacianSmooth on Line/LineLoop topologies not modelled (VertexNeighborTable indexes m.indices[0] of an empty line loop: runtime panic, observation)",
-             "material ranges are not part of WF; negative indices are unrepresentable in the model (oracle answers false)",
+             "negative indices are unrepresentable in the model (oracle answers false)",
              "the correspondence is differential testing bounded by the generators (distribution in this file)"],
     assumptions=["WF is the property's own definition: one common attribute length, every index < that length, index count a "
                  "multiple of the primitive size (triangle 3, quad 4, line 2); material ranges are not part of WF"],
+    manifest=dict(
+        text="Lean 4 theorems for every payload type and all parameter values. Operations: ops_closed / ops_closed_transforms (any finite sequence of non-rejected mesh "
+             "operations keeps a well-formed mesh well-formed) from per-operation lemmas WF m -> WF (op m) or rejection: unweld, remove unreferenced, to point cloud, flip, append, "
+             "filters (point clouds only, else rejected), crop, remove null faces, split on materials (every part), weld by any key function, repeat, set material(s), modify/map, and "
+             "the ten transforms (translate, scale-about, mesh scale, rotate, apply-TRS, centre, normalise, smooth/flat normals, Laplacian). ClearAttributeData and the raw "
+             "setters (SetIndices, SetFloatNAttribute incl. delete-on-empty, CopyFloatNAttribute, SetFloatNData) take unchecked caller data: they preserve WF exactly under the stated "
+             "length/range guards (theorems setIndices_wf, setAttr_wf, setAttr_delete_wf, setData_wf, clearAttrs_wf, and guarded Step constructors); with other data they are builders "
+             "whose result the caller completes (outside the theorem, observed only). Generators: every index in range and count divisible by 3 for ALL parameters of the Lean index "
+             "generators of UV sphere (welded/unwelded), hemisphere, circle and cone (sides >= 3), cylinder (all cap choices), quad, cube tables, extrude shape/line/polygon (every "
+             "list of winding flags; also Circle.Extrude, CircleAlongSpline), screw, and an abstract marching-cubes block allocation + append fold. Tie: exact (vertex count, index "
+             "list) comparison of every modelled generator with the Go constructor on sweeps from parameter 0 upward (exhaustive <= 24, non-square samples up to 512; invalid "
+             "parameters must be rejected on both sides); op sequences compared with the model (shape); the WF predicate evaluated on EVERY mesh the implementation returns, "
+             "including un-modelled operations (slice by plane, colour LUT/space, implicit-weld normals, axis Laplacian, scale along normal, 2-D scale/normalise) and un-modelled "
+             "generators (Bowyer-Watson, constrained Bowyer-Watson with clipping constraints, repeat, marching).",
+        note="Trusted: Lean kernel + 3 axioms; harness. Not theorems (WF oracle on implementation output only): the un-modelled operations and generators listed above; the "
+             "marching theorems are about an abstract LookupOrAdd allocation tied to canvas.go by the oracle; generator theorems are about the Lean generators, linked to Go by the "
+             "sweeps. Raw setters outside their guards are not claimed. SplitOnUniqueMaterials panics (index out of range) on material ranges shorter than the triangle list: "
+             "recovered by the harness and counted as a rejection (material ranges are outside WF). Defects found and fixed: filters on indexed meshes, Circle{Sides<3}, "
+             "SliceByPlane on non-triangle meshes.",
+        technique="Lean 4 proof (closure of WF under operations and generators, omega arithmetic for all parameters) + exact index-list correspondence + compiled WF oracle on every returned mesh"),
 )
